@@ -3783,3 +3783,102 @@ func ruleReuseGuard(prog *Program, rep *Report) {
 		rep.Errorf("R-reuseguard found %d appends to a recycle list (floor 2)", n)
 	}
 }
+
+// ---------------------------------------------------------------- M-recnil
+
+// matchRecursionPassesNil: a function that walks a tree and takes context in a pointer or
+// interface parameter (the parent operator, the enclosing struct info) hands that context on
+// when it calls itself. A self-call with the literal nil in such a position, while other
+// self-calls of the same function pass a value there, drops the context for one branch.
+func matchRecursionPassesNil(files []*ast.File, info *types.Info) (sites []synSite, examined int) {
+	for _, f := range files {
+		for _, d := range f.Decls {
+			fd, ok := d.(*ast.FuncDecl)
+			if !ok || fd.Body == nil {
+				continue
+			}
+			self := info.Defs[fd.Name]
+			type sc struct {
+				call *ast.CallExpr
+			}
+			var calls []*ast.CallExpr
+			ast.Inspect(fd.Body, func(n ast.Node) bool {
+				call, ok := n.(*ast.CallExpr)
+				if !ok {
+					return true
+				}
+				var callee types.Object
+				switch fn := ast.Unparen(call.Fun).(type) {
+				case *ast.Ident:
+					callee = info.Uses[fn]
+				case *ast.SelectorExpr:
+					callee = info.Uses[fn.Sel]
+				}
+				if callee != nil && callee == self {
+					calls = append(calls, call)
+				}
+				return true
+			})
+			if len(calls) < 2 {
+				continue
+			}
+			npos := 0
+			for _, c := range calls {
+				if len(c.Args) > npos {
+					npos = len(c.Args)
+				}
+			}
+			for i := 0; i < npos; i++ {
+				nils, vals := 0, 0
+				var nilCall *ast.CallExpr
+				for _, c := range calls {
+					if i >= len(c.Args) {
+						continue
+					}
+					if id, ok := ast.Unparen(c.Args[i]).(*ast.Ident); ok && id.Name == "nil" {
+						nils++
+						nilCall = c
+					} else {
+						vals++
+					}
+				}
+				if nils+vals > 0 {
+					examined++
+				}
+				if nils == 1 && vals >= 1 {
+					name := enclosingFuncName(f, nilCall.Pos())
+					sites = append(sites, synSite{pos: nilCall.Pos(), file: f, key: fmt.Sprintf("%s:self-call-nil-arg%d", name, i),
+						msg: fmt.Sprintf("%s calls itself with nil as argument %d here while its other self-call(s) pass a value in that position: the context is dropped for this branch", name, i+1)})
+				}
+			}
+		}
+	}
+	return
+}
+
+const fixtureRecursionPassesNil = `package fixture
+
+type op struct{ prec int }
+type eq struct {
+	o           *op
+	left, right *eq
+}
+
+func reduce(e *eq, po *op) *eq {
+	if e == nil {
+		return nil
+	}
+	if e.o == nil && e.left != nil && e.right == nil {
+		return reduce(e.left, nil)
+	}
+	e.left = reduce(e.left, e.o)
+	e.right = reduce(e.right, e.o)
+	_ = po
+	return e
+}
+`
+
+func ruleRecursionPassesNil(prog *Program, rep *Report, rels ...string) {
+	rep.Rules = append(rep.Rules, "M-recnil: among the self-calls of one function no single call passes the literal nil in an argument position where the others pass a value: context handed down a recursion is handed down every branch")
+	runSynRule(prog, rep, "M-recnil", rels, matchRecursionPassesNil, fixtureRecursionPassesNil, 1, 2)
+}
